@@ -71,6 +71,11 @@ def finish(prop, tier, seed, results, t0, extra_cov=None, level="proof", checker
     solver_time = 0.0
     by_backend = {}
     for r in results:
+        vac = [o for o in r["obs"] if o.get("vacuous")]
+        solid = [o for o in r["obs"] if o["verdict"] == "proved" and not o.get("vacuous") and str(o.get("backend", "")).startswith(("z3", "cvc5"))
+                 and o["kind"] != "cover" and not str(o["kind"]).startswith("safety")]
+        if vac and not solid:
+            vac[0]["fault"] = "vacuous unit: every proved obligation of unit %s has contradictory assumptions (%d obligations)" % (r["unit"], len(vac))
         if r["error"]:
             errors.append((r["unit"], r["error"]))
         obs.extend(r["obs"])
@@ -209,6 +214,7 @@ def finish(prop, tier, seed, results, t0, extra_cov=None, level="proof", checker
         "undecided": [{"id": o["id"], "note": o.get("note")} for o in unknown],
         "ledger_missing": missing,
         "downgrades": downgrades,
+        "infeasible_path_obligations": sum(1 for o in obs if o.get("vacuous")),
         "notes": notes,
     }
     if extra_cov:
